@@ -28,7 +28,12 @@
      [EnvV p] is a post on thread p's semaphore by code outside the model (the note's notifier posts the same semaphore).
    * Client contract = [XCrash]: XWait m by a thread that does not hold the mutex in mode m (the C code panics when the
      word shows no lock; MuModel's own contract crashes are its [Crash] pcs).
-   * Ghost: [held] (MuModel), [x_rets] (log of the returns of XWait: entry mode, what is held at return), w_m.
+   * wake_waiters' release of the mutex spinlock: clear_on_release (MU_SPINLOCK, plus MU_WAITING when pmu->waiters is
+     empty after the transfer loop -- a plain access under the spinlock, merged like the loop into the step of the
+     acquiring CAS) is the local [k_clr], computed in the step of site wake_waiters.2 from the model's queue.
+   * Ghost: [held] (MuModel), [x_rets] (log of the returns of XWait: entry mode, what is held at return), w_m,
+     [w_out] (the result "outcome != 0" of the wait: set, as in cv.c, only in the branch of the confirmation section
+     that finds the waiter still on the cv queue).
    No proofs in this file. *)
 From NsyncBase Require Import CSem.
 From NsyncGen Require Import Consts Sites.
@@ -43,13 +48,15 @@ Inductive xop := XOp (o : op) | XWait (m : mode) | XSignal | XBroadcast.
 Record xwl := mk_xwl {
   w_m : mode;          (* ghost: the mode the client declared (= held on entry) *)
   w_lm : mode;         (* w->l_type / is_reader_mu, computed from the mutex word *)
-  w_so : bool          (* sem_outcome != 0 *)
+  w_so : bool;         (* sem_outcome != 0 *)
+  w_out : bool         (* ghost: outcome != 0 (the value the wait returns) *)
 }.
 (* locals of wake_waiters *)
 Record kl := mk_kl {
   k_wake : list nat;   (* to_wake_list, head first *)
   k_allr : bool;       (* all_readers *)
-  k_set : Z            (* set_on_release *)
+  k_set : Z;           (* set_on_release *)
+  k_clr : Z            (* clear_on_release (meaningful after the acquiring CAS) *)
 }.
 
 Inductive xpc :=
@@ -106,7 +113,8 @@ Definition set_xpc (xw : xworld) (t : nat) (p : xpc) : xworld :=
 Definition add_xret (xw : xworld) (t : nat) (r : mode * option mode) : xworld :=
   let s := xget xw t in set_xt xw t (mk_xt (x_pc s) (x_ops s) (r :: x_rets s)).
 
-Definition wl_set_so (l : xwl) (b : bool) : xwl := mk_xwl (w_m l) (w_lm l) b.
+Definition wl_set_so (l : xwl) (b : bool) : xwl := mk_xwl (w_m l) (w_lm l) b (w_out l).
+Definition wl_set_out (l : xwl) (b : bool) : xwl := mk_xwl (w_m l) (w_lm l) (w_so l) b.
 
 Fixpoint mem_id (r : nat) (l : list nat) : bool :=
   match l with [] => false | x :: t => if Nat.eqb x r then true else mem_id r t end.
@@ -222,8 +230,8 @@ Definition xstep_thr (xw0 : xworld) (t : nat) (c : choice) : xworld * xev :=
       let is_reader := has old MU_RHELD_IF_NON_ZERO in
       if is_writer then
         if is_reader then (set_xpc xw t (XCrash 6), XMu (EvLoad 1102 old))
-        else (set_xpc (set_mw xw (set_wtype w t W)) t (XwEnq (mk_xwl m W false)), XMu (EvLoad 1102 old))
-      else if is_reader then (set_xpc (set_mw xw (set_wtype w t R)) t (XwEnq (mk_xwl m R false)), XMu (EvLoad 1102 old))
+        else (set_xpc (set_mw xw (set_wtype w t W)) t (XwEnq (mk_xwl m W false false)), XMu (EvLoad 1102 old))
+      else if is_reader then (set_xpc (set_mw xw (set_wtype w t R)) t (XwEnq (mk_xwl m R false false)), XMu (EvLoad 1102 old))
       else (set_xpc xw t (XCrash 7), XMu (EvLoad 1102 old))
   | XwEnq l =>
       (* under the cv spinlock: pcv->waiters += w; then, spinlock released: nsync_mu_runlock (cv_mu) / unlock (pmu) *)
@@ -255,7 +263,8 @@ Definition xstep_thr (xw0 : xworld) (t : nat) (c : choice) : xworld * xev :=
       if mem_id t (cvq xw) then
         let v := nsync_cv_wait_with_deadline_generic_store3_new in
         let xw1 := set_cvq (set_mw xw (set_waiting w t (negb (v =? 0)))) (remove_id t (cvq xw)) in
-        (set_xpc xw1 t (XwLoad13 l), XSec 1112 1)
+        (* outcome = sem_outcome *)
+        (set_xpc xw1 t (XwLoad13 (wl_set_out l (w_so l))), XSec 1112 1)
       else (set_xpc xw t (XwLoad13 l), XSec 1112 0)
   | XwLoad13 l => (set_xpc xw t (XwLoop l), XMu (EvLoad 1113 (b2z (waiting w t))))
   | XwReacq l =>
@@ -279,7 +288,7 @@ Definition xstep_thr (xw0 : xworld) (t : nat) (c : choice) : xworld * xev :=
       let xw1 := set_cvq xw kp in
       match wk with
       | [] => (set_xpc xw1 t XIdle, XSec site 0)
-      | _ => (set_xpc xw1 t (XvLoad1 (mk_kl wk allr 0)), XSec site (Z.of_nat (length wk)))
+      | _ => (set_xpc xw1 t (XvLoad1 (mk_kl wk allr 0 0)), XSec site (Z.of_nat (length wk)))
       end
   (* --- wake_waiters (pmu = first_w->cv_mu != NULL: every waiter is a native one) --- *)
   | XvLoad1 k =>
@@ -292,12 +301,15 @@ Definition xstep_thr (xw0 : xworld) (t : nat) (c : choice) : xworld * xev :=
       if ok then
         let '(moved, stay, set_on) := xfer (wtype w) (first_cant_acquire (wtype w) old (k_wake k)) (k_wake k) in
         (* pmu->waiters = make_last (pmu->waiters, p); p_w->cv_mu = NULL; waiting stays 1 *)
-        let xw1 := set_xferred (set_mw xw (set_queue w1 (queue w1 ++ moved))) (set_all (xferred xw) moved true) in
-        (set_xpc xw1 t (XvLoad3 (mk_kl stay (k_allr k) set_on)), XMu (EvCas 1002 old new true))
+        let q' := queue w1 ++ moved in
+        (* clear_on_release = MU_SPINLOCK; if (nsync_dll_is_empty_ (pmu->waiters)) clear_on_release |= MU_WAITING *)
+        let clr := match q' with [] => bor MU_SPINLOCK MU_WAITING | _ => MU_SPINLOCK end in
+        let xw1 := set_xferred (set_mw xw (set_queue w1 q')) (set_all (xferred xw) moved true) in
+        (set_xpc xw1 t (XvLoad3 (mk_kl stay (k_allr k) set_on clr)), XMu (EvCas 1002 old new true))
       else (set_xpc xw t (wake_loop k), XMu (EvCas 1002 old new false))
   | XvLoad3 k => (set_xpc xw t (XvCas2 k (word w)), XMu (EvLoad 1003 (word w)))
   | XvCas2 k old =>
-      let new := wake_waiters_cas2_new old (k_set k) in
+      let new := wake_waiters_cas2_new old (k_set k) (k_clr k) in
       let '(w1, ok) := cas w (wake_waiters_cas2_old old) new in
       if ok then (set_xpc (set_mw xw w1) t (wake_loop k), XMu (EvCas 1004 old new true))
       else (set_xpc xw t (XvLoad5 k), XMu (EvCas 1004 old new false))
@@ -307,7 +319,7 @@ Definition xstep_thr (xw0 : xworld) (t : nat) (c : choice) : xworld * xev :=
       | [] => (set_xpc xw t XIdle, XMu EvNone)
       | p :: rest =>
           let v := wake_waiters_store1_new in
-          (set_xpc (set_mw xw (set_waiting w p (negb (v =? 0)))) t (XvV (mk_kl rest (k_allr k) (k_set k)) p),
+          (set_xpc (set_mw xw (set_waiting w p (negb (v =? 0)))) t (XvV (mk_kl rest (k_allr k) (k_set k) (k_clr k)) p),
            XMu (EvStoreWaiting p v))
       end
   | XvV k p => (set_xpc (set_mw xw (set_sem w p (sem w p + 1))) t (wake_loop k), XMu (EvV p))
